@@ -9,7 +9,8 @@ PKG = "network/transport/v2"
 HARNESS = ["network/transport/v2/zz_verif_c07_test.go", "network/transport/v2/zz_verif_c07_gen_test.go",
            "network/transport/v2/zz_verif_c15_test.go", "network/transport/v2/gossip/zz_verif_export_c07.go"]
 
-REQUIRED = ["safety_any_schedule", "unsolicited_responses_change_no_dag", "chunks_lossless", "stable_when_equal",
+REQUIRED = ["safety_any_schedule", "unsolicited_responses_change_no_dag", "chunks_lossless", "stable_when_equal"]
+REQUIRED_LIVENESS = [
             "round_progress", "converges"]
 
 
@@ -146,7 +147,7 @@ def run(ctx):
     else:
         ctx.oblige("correspondence:model=impl", True, f"{len(impl)} lines equal")
 
-    steps = [l for l in ops if l and not l.startswith(('{"op":"tx"', '{"op":"payload"', '{"op":"cipher"', '{"op":"universe"'))]
+    steps = [l for l in ops if l and not any(k in l[:200] for k in ('"op":"tx"', '"op":"payload"', '"op":"cipher"', '"op":"universe"'))]
     opk = Counter(json.loads(l)["op"] + (":" + json.loads(l)["msg"]["t"] if '"op":"inject"' in l else "") for l in steps)
     ctx.cov["evaluations"] = len(steps)
     ctx.cov["distinct_nontrivial"] = len({(v["scenario"]) for v in verdicts if v["start_diff"] > 0 or v["deliveries"] > 0})
@@ -160,5 +161,5 @@ def run(ctx):
     ctx.cov["input_distribution"] = {"scenarios": len(verdicts), "templates": dict(kinds), "features": dict(feats), "step_kinds": dict(opk),
                                      "rounds_to_converge": dict(Counter(v["rounds"] for v in verdicts)),
                                      "decode_contract_histogram(bucket:[attempts,success,exact])": dc,
-                                     "universe_transactions": sum(1 for l in ops if l.startswith('{"op":"tx"'))}
+                                     "universe_transactions": sum(1 for l in ops if '"op":"tx"' in l[:200])}
     ctx.cov["samples"] = [steps[1][:300] if len(steps) > 1 else "", impl[len(ops) - len(steps) + 1][:300] if impl else ""]
